@@ -341,6 +341,11 @@ def concrete_playback(unit, harness_id, prop):
                          r"let concrete_vals: Vec<Vec<u8>> = vec!\[(.*?)\n    \];", out1, re.S):
         tests.append({"category": m.group(1), "check": m.group(2).strip(), "test": m.group(3), "vals": m.group(4)})
     fail_tests = [t for t in tests if t["category"] != "cover"]
+    if not fail_tests:
+        # Kani emits ONE test per distinct set of concrete values and labels it with the first check it serves: when
+        # the failing assertion's trace coincides with a cover witness's trace, only "cover"-labelled tests exist.
+        # They are replayed instead: the harness body is the same, a native panic is the assertion failing.
+        fail_tests = list(tests)
     record = {"property": prop, "harness": harness_id, "crate": unit.crate, "source": unit.path,
               "tests": tests, "kani_output_tail": out1[-3000:], "native": []}
     reproduced = None
